@@ -16,7 +16,9 @@
 #include "cstl/rbtree.h"
 
 #define MAXN 512
-struct el { int key; int id; struct cstl_rbtree_node n; };
+/* two node members: the second tree object is configured differently in every respect (node member, comparison
+ * function, private pointer), so swapping the trees has to carry the configuration along with the contents */
+struct el { int key; int id; struct cstl_rbtree_node n; long pad; struct cstl_rbtree_node n2; };
 static struct el pool[MAXN + 1];
 static int N, RB, SWAP, MAXK, PROBES = 2;
 static struct cstl_rbtree T[2];
@@ -26,6 +28,11 @@ static unsigned char held[MAXN + 1];
 static int cmp(const void *a, const void *b, void *p)
 {
     e_check_priv(p);
+    return e_cmp3(((const struct el *)a)->key, ((const struct el *)b)->key);
+}
+static int cmp2(const void *a, const void *b, void *p)
+{
+    e_check_priv2(p);
     return e_cmp3(((const struct el *)a)->key, ((const struct el *)b)->key);
 }
 static int id_of_el(const void *e)
@@ -40,19 +47,36 @@ static int id_of_el(const void *e)
 static int id_of_bn(const struct cstl_bintree_node *bn)
 {
     if (!bn) return 0;
-    return id_of_el((const char *)bn - offsetof(struct el, n.n));
+    return id_of_el((const char *)bn - T[cur].t.off);       /* elements hang on the member the current tree is configured with */
 }
 static struct cstl_bintree *BT(void) { return &T[cur].t; }
 
-static void tree_init(struct cstl_rbtree *t)
+/* which: 0 = node member n, cmp, E_PRIV; 1 = node member n2, cmp2, E_PRIV2 */
+static void tree_init(struct cstl_rbtree *t, int which)
 {
 #ifdef USE_INITIALIZER   /* the CSTL_*_INITIALIZER macros instead of the init functions */
-    if (RB) { struct cstl_rbtree x = CSTL_RBTREE_INITIALIZER(struct el, n, cmp, E_PRIV); *t = x; }
-    else { struct cstl_bintree x = CSTL_BINTREE_INITIALIZER(struct el, n.n, cmp, E_PRIV); memset(t, 0, sizeof *t); t->t = x; }
+    if (RB) {
+        struct cstl_rbtree x = CSTL_RBTREE_INITIALIZER(struct el, n, cmp, E_PRIV), y = CSTL_RBTREE_INITIALIZER(struct el, n2, cmp2, E_PRIV2);
+        *t = which ? y : x;
+    } else {
+        struct cstl_bintree x = CSTL_BINTREE_INITIALIZER(struct el, n.n, cmp, E_PRIV), y = CSTL_BINTREE_INITIALIZER(struct el, n2.n, cmp2, E_PRIV2);
+        memset(t, 0, sizeof *t); t->t = which ? y : x;
+    }
     return;
 #endif
-    if (RB) cstl_rbtree_init(t, cmp, E_PRIV, offsetof(struct el, n));
-    else { memset(t, 0, sizeof *t); cstl_bintree_init(&t->t, cmp, E_PRIV, offsetof(struct el, n.n)); }
+    if (RB) { if (which) cstl_rbtree_init(t, cmp2, E_PRIV2, offsetof(struct el, n2)); else cstl_rbtree_init(t, cmp, E_PRIV, offsetof(struct el, n)); }
+    else {
+        memset(t, 0, sizeof *t);
+        if (which) cstl_bintree_init(&t->t, cmp2, E_PRIV2, offsetof(struct el, n2.n)); else cstl_bintree_init(&t->t, cmp, E_PRIV, offsetof(struct el, n.n));
+    }
+}
+/* the configuration the current tree object carries: 1 / 2 as above, -1 = a mixture */
+static int cfg_of(const struct cstl_rbtree *t)
+{
+    size_t o1 = offsetof(struct el, n.n), o2 = offsetof(struct el, n2.n);
+    if (t->t.off == o1 && t->t.cmp.func == cmp && t->t.cmp.priv == E_PRIV && (!RB || t->off == offsetof(struct el, n))) return 1;
+    if (t->t.off == o2 && t->t.cmp.func == cmp2 && t->t.cmp.priv == E_PRIV2 && (!RB || t->off == offsetof(struct el, n2))) return 2;
+    return -1;
 }
 
 static void drv_setup(int argc, char **argv)
@@ -78,8 +102,8 @@ static void drv_header(jb_t *b)
 static void drv_reset(void)
 {
     int i;
-    tree_init(&T[0]); tree_init(&T[1]); cur = 0;
-    for (i = 0; i <= N; i++) { memset(&pool[i].n, 0, sizeof pool[i].n); held[i] = 0; }
+    tree_init(&T[0], 0); tree_init(&T[1], 1); cur = 0;
+    for (i = 0; i <= N; i++) { memset(&pool[i].n, 0, sizeof pool[i].n); memset(&pool[i].n2, 0, sizeof pool[i].n2); held[i] = 0; }
 }
 
 /* ---- callbacks ---- */
@@ -101,7 +125,7 @@ static void clear_cb(void *e, void *p)
     if (id > 0) {
         held[id] = 0;
         /* the element now belongs to the callee: scribble over its links */
-        if (clear_poison) memset(&pool[id].n, 0xA5, sizeof pool[id].n);
+        if (clear_poison) { memset(&pool[id].n, 0xA5, sizeof pool[id].n); memset(&pool[id].n2, 0xA5, sizeof pool[id].n2); }
     }
 }
 
@@ -213,15 +237,17 @@ static void drv_ser(jb_t *b)
     jb_size(b, RB ? cstl_rbtree_size(&T[cur]) : cstl_bintree_size(bt));   /* the public accessor, not the field */
     jb_printf(b, ",\"cur\":%d,\"osize\":", cur);
     jb_size(b, T[1 - cur].t.size);
-    jb_printf(b, ",\"oroot\":%d,\"bad\":%s", id_of_bn(T[1 - cur].t.root), malformed ? "true" : "false");
+    jb_printf(b, ",\"oroot\":%d,\"cfg\":%d,\"bad\":%s", id_of_bn(T[1 - cur].t.root), cfg_of(&T[cur]), malformed ? "true" : "false");
     for (f = 0; f < 4; f++) {
         jb_printf(b, ",\"%s\":[", nm[f]);
         for (i = 1; i <= N; i++) {
             int v = 0;
             if (member[i] && !malformed) {
-                struct cstl_bintree_node *bn = &pool[i].n.n;
+                /* the node member the current tree is configured with */
+                struct cstl_bintree_node *bn = (struct cstl_bintree_node *)((char *)&pool[i] + bt->off);
+                struct cstl_rbtree_node *rn = (struct cstl_rbtree_node *)((char *)bn - offsetof(struct cstl_rbtree_node, n));
                 v = f == 0 ? id_of_bn(bn->p) : f == 1 ? id_of_bn(bn->l) : f == 2 ? id_of_bn(bn->r)
-                    : (RB ? (pool[i].n.c == CSTL_RBTREE_COLOR_B) : 0);
+                    : (RB ? (rn->c == CSTL_RBTREE_COLOR_B) : 0);
             }
             jb_printf(b, "%s%d", i > 1 ? "," : "", v);
         }
